@@ -1,5 +1,5 @@
 from .. import facts
-from ..rules import filt, tables, status, factors, codec
+from ..rules import sampling, filt, tables, status, factors, codec
 
 
 def run(ck):
@@ -20,3 +20,4 @@ def run(ck):
     filt.r_axis_consistency(ck, P, 'C02-R13')
     codec.r8_scalar_helpers(ck, P)
     factors.r10f_simd_fetchers(ck, P, 'C02-R14')
+    sampling.r11_rounding_epsilon(ck, P)     # C08-R11: the C fast-path fetcher and the general fetcher start their kernels at the same pixel
